@@ -8,7 +8,7 @@ HARNESS = os.path.join(VERIF, "harness")
 WORK = os.path.join(VERIF, "work")
 EVID = os.path.join(VERIF, "evidence")
 CORPUS = os.path.join(VERIF, "corpus")
-REPO = "/repo"
+REPO = os.environ.get("VERIF_REPO") or "/repo"        # (override: parallel seed regression on scratch copies only)
 DRIVER = os.environ.get("VERIF_DRIVER") or os.path.join(LEAN, ".lake", "build", "bin", "driver")   # (override: development only)
 HBIN = os.environ.get("VERIF_HBIN") or os.path.join(HARNESS, "target", "debug", "harness")
 ALLOWED_AXIOMS = {"propext", "Classical.choice", "Quot.sound"}
